@@ -102,3 +102,13 @@ func (cc *ClusterContext) VerifConfigUpdate(rmID, config string, extra map[strin
 func VerifFreshPartition(conf configs.PartitionConfig, rmID string) (*PartitionContext, error) {
 	return newPartitionContext(conf, rmID, nil, true)
 }
+
+// VerifYieldHook, when set, is called at the named yield points: the harness uses it to run an RM request inside the
+// window between a scheduling decision and its confirmation (deterministic interleavings on one goroutine).
+var VerifYieldHook func(point string)
+
+func verifYield(point string) {
+	if VerifYieldHook != nil {
+		VerifYieldHook(point)
+	}
+}
